@@ -8,6 +8,10 @@ case:  (wr (opts <ft> <enc> <encOpt 0|1> <esc> <lt> <ls>) (rows (<v> …) …)) 
          v = null | (t <hex>) | (n <hex>)
        (rd (opts …) <ncols> <file hex>)                      -- reader alone on arbitrary bytes
        table = (<row> …), row = (<hex>|null …)
+       (sp <lt> <data> <atEOF 0|1>)                          obs: <advance> <token hex|nil>   (SplitLines itself)
+       (sc <lt> (chunks <chunk> …))                          obs: (<token> …)   (bufio.Scanner over that chunking)
+       (lc (opts …) <ncols> (chunks <chunk> …))              obs: t=<table>     (LOAD DATA LOCAL over that chunking)
+         v also (tr <hex> <n>) = text, <hex> repeated n times; chunk = <hex> | (r <hex> <n>) | (j piece …)
 -/
 
 def parseOpts : Sexp → Option Opts
@@ -22,7 +26,30 @@ def parseVal : Sexp → Option Val
   | .atom "null" => some .null
   | .list [.atom "t", b] => b.bytes?.map .text
   | .list [.atom "n", b] => b.bytes?.map .num
+  | .list [.atom "tr", b, n] =>
+    match b.bytes?, n.nat? with
+    | some b, some n => some (.text (List.replicate n b).flatten)
+    | _, _ => none
   | _ => none
+
+/-- piece = <hex> | (r <hex> <n>) -/
+def parsePiece : Sexp → Option Bytes
+  | .list [.atom "r", b, n] =>
+    match b.bytes?, n.nat? with
+    | some b, some n => some (List.replicate n b).flatten
+    | _, _ => none
+  | s => s.bytes?
+
+/-- chunk = piece | (j piece …) -/
+def parseChunk : Sexp → Option Bytes
+  | .list (.atom "j" :: ps) => (ps.mapM parsePiece).map List.flatten
+  | s => parsePiece s
+
+def parseChunks : Sexp → Option (List Bytes)
+  | .list (.atom "chunks" :: cs) => cs.mapM parseChunk
+  | _ => none
+
+def showToks (ts : List Bytes) : String := "(" ++ " ".intercalate (ts.map hex) ++ ")"
 
 def parseRows : Sexp → Option (List (List Val))
   | .list (.atom "rows" :: rs) => rs.mapM fun r => r.items.mapM parseVal
@@ -55,6 +82,32 @@ def handle (p : List Sexp) : String :=
   | [.list [.atom "rd", os, nc, f]] =>
     match parseOpts os, nc.nat?, f.bytes? with
     | some o, some n, some file => answer ("t=" ++ showTable (readFile o n file)) "?"
+    | _, _, _ => answer "bad-case"
+  | [.list [.atom "sp", lt, d, .atom e]] =>
+    match lt.bytes?, d.bytes? with
+    | some lt, some d =>
+      let r := splitFn lt d (e == "1")
+      answer (toString r.1 ++ " " ++ (match r.2 with | none => "nil" | some t => hex t)) "?"
+    | _, _ => answer "bad-case"
+  | [.list [.atom "sc", lt, cs]] =>
+    -- Spec: the whole-file split (chunking independence, `scan_whole`)
+    match lt.bytes?, parseChunks cs with
+    | some lt, some chunks =>
+      let got := scan lt [] chunks
+      let want := splitLines lt 0 chunks.flatten []
+      if lt.isEmpty then answer (showToks got) "?"
+      else if got == want then answer (showToks got)
+      else answer (showToks got) (showToks want) "no_region"
+    | _, _ => answer "bad-case"
+  | [.list [.atom "lc", os, nc, cs]] =>
+    -- Spec: what the same bytes give when they are read as one piece (`read_chunking_independent`)
+    match parseOpts os, nc.nat?, parseChunks cs with
+    | some o, some n, some chunks =>
+      let got := readFileChunked o n chunks
+      let want := readFile o n chunks.flatten
+      if o.lt.isEmpty then answer ("t=" ++ showTable got) "?"
+      else if got == want then answer ("t=" ++ showTable got)
+      else answer ("t=" ++ showTable got) ("t=" ++ showTable want) "no_region"
     | _, _, _ => answer "bad-case"
   | [.list (.atom "typed" :: _)] => answer "typed" "?"
   | _ => answer "bad-case"
